@@ -49,6 +49,14 @@ Proof.
     destruct (f (fst z)); simpl; lia.
 Qed.
 
+Lemma cnt_pos f l : 1 <= cnt f l -> exists j th, nth_error l j = Some th /\ f (fst th) = true.
+Proof.
+  unfold cnt. induction l as [|z r IH]; simpl; [lia|].
+  destruct (f (fst z)) eqn:E.
+  - intros _. exists 0, z. auto.
+  - intro H. destruct (IH H) as [j [th [Hj Hf]]]. exists (S j), th. auto.
+Qed.
+
 Lemma nth_error_upd_cases {A} (l : list A) i j x y :
   nth_error (upd i x l) j = Some y -> (i = j /\ y = x) \/ (i <> j /\ nth_error l j = Some y).
 Proof.
@@ -89,8 +97,8 @@ Record Inv (t0 : table) (c : conf) : Prop := {
 
 Lemma inv_init t0 progs : Inv t0 (init_conf t0 progs).
 Proof.
-  assert (Z : forall f, (forall p, f Idle = false) -> cnt f (map (fun ops => (Idle, ops)) progs) = 0).
-  { intros f Hf. unfold cnt. induction progs; simpl; auto. rewrite (Hf Idle). auto. }
+  assert (Z : forall f : pc -> bool, f Idle = false -> cnt f (map (fun ops => (Idle, ops)) progs) = 0).
+  { intros f Hf. unfold cnt. induction progs; simpl; auto. rewrite Hf. auto. }
   constructor; simpl; auto.
   - unfold lock_ok; simpl. split; apply Z; auto.
   - intros j th H. apply nth_error_In in H. apply in_map_iff in H. destruct H as [ops [<- _]].
@@ -122,6 +130,12 @@ Qed.
 Ltac upd_cases H :=
   apply nth_error_upd_cases in H; destruct H as [[? ?]|[? H]]; subst.
 
+Ltac quiet Hq :=
+  unfold set_thr in *;
+  first [ solve [auto]
+        | let Hz := fresh in intro Hz; exfalso; lia
+        | intros _; apply Hq; lia ].
+
 Lemma inv_step t0 c c' : Inv t0 c -> cstep true c c' -> Inv t0 c'.
 Proof.
   intros [Hb Hl Hq Ht Ho] S.
@@ -131,9 +145,9 @@ Proof.
     specialize (Hd eq_refl). unfold lock_ok in Hl. rewrite Hd in Hl. destruct Hl as [L1 L2].
     pose proof (cnt_upd inW _ _ _ (WHeld o, r) Hi) as CW. pose proof (cnt_upd inR _ _ _ (WHeld o, r) Hi) as CR.
     simpl in CW, CR.
-    constructor; simpl; auto.
+    constructor; simpl; [auto| | | |auto].
     + unfold lock_ok, set_thr; simpl. lia.
-    + unfold set_thr. lia.
+    + quiet Hq.
     + intros j th H. unfold set_thr in H. upd_cases H.
       * unfold th_ok; simpl. auto.
       * apply th_ok_notW. destruct (inW (fst th)) eqn:W; auto.
@@ -143,9 +157,9 @@ Proof.
     pose proof (cnt_upd inW _ _ _ (WLoaded o t, r) Hi) as CW'. pose proof (cnt_upd inR _ _ _ (WLoaded o t, r) Hi) as CR'.
     simpl in CW', CR'.
     pose proof (Ht i _ Hi) as Hok. unfold th_ok in Hok; simpl in Hok.
-    constructor; simpl; auto.
+    constructor; simpl; [auto| | | |auto].
     + unfold lock_ok, set_thr; simpl. rewrite Lk. lia.
-    + unfold set_thr. lia.
+    + quiet Hq.
     + intros j th H. unfold set_thr in H. upd_cases H.
       * unfold th_ok; simpl. split; congruence.
       * apply Ht with (j := j); auto.
@@ -156,9 +170,9 @@ Proof.
     pose proof (cnt_upd inW _ _ _ (WTorn o t, r) Hi) as CW'. pose proof (cnt_upd inR _ _ _ (WTorn o t, r) Hi) as CR'.
     simpl in CW', CR'.
     pose proof (Ht i _ Hi) as Hok. unfold th_ok in Hok; simpl in Hok. destruct Hok as [_ Hok].
-    constructor; simpl; auto.
+    constructor; simpl; [auto| | | |auto].
     + unfold lock_ok, set_thr; simpl. rewrite Lk. lia.
-    + unfold set_thr. lia.
+    + quiet Hq.
     + intros j th H. unfold set_thr in H. upd_cases H.
       * unfold th_ok; simpl. auto.
       * apply th_ok_notW. eapply Hoth; eauto.
@@ -167,9 +181,9 @@ Proof.
     pose proof (cnt_upd inW _ _ _ (WStored, r) Hi) as CW'. pose proof (cnt_upd inR _ _ _ (WStored, r) Hi) as CR'.
     simpl in CW', CR'.
     pose proof (Ht i _ Hi) as Hok. unfold th_ok in Hok; simpl in Hok. destruct Hok as [_ Hok].
-    constructor; simpl; auto.
+    constructor; simpl; [auto| | | |auto].
     + unfold lock_ok, set_thr; simpl. rewrite Lk. lia.
-    + unfold set_thr. lia.
+    + quiet Hq.
     + intros j th H. unfold set_thr in H. upd_cases H.
       * unfold th_ok; simpl. rewrite apply_ops_snoc. congruence.
       * apply th_ok_notW. eapply Hoth; eauto.
@@ -178,8 +192,9 @@ Proof.
     pose proof (cnt_upd inW _ _ _ (Idle, r) Hi) as CW'. pose proof (cnt_upd inR _ _ _ (Idle, r) Hi) as CR'.
     simpl in CW', CR'.
     pose proof (Ht i _ Hi) as Hok. unfold th_ok in Hok; simpl in Hok.
-    constructor; simpl; auto.
+    constructor; simpl; [auto| | | |auto].
     + unfold lock_ok, set_thr; simpl. lia.
+    + quiet Hq.
     + intros j th H. unfold set_thr in H. upd_cases H.
       * exact I.
       * apply th_ok_notW. eapply Hoth; eauto.
@@ -188,9 +203,10 @@ Proof.
     pose proof (cnt_upd inW _ _ _ (RHeld o, r) Hi) as CW'. pose proof (cnt_upd inR _ _ _ (RHeld o, r) Hi) as CR'.
     simpl in CW', CR'.
     assert (CW : cnt inW (c_thr c) = 0).
-    { unfold lock_ok in Hl. destruct (c_lk c); try tauto; try contradiction. congruence. }
-    constructor; simpl; auto.
+    { unfold lock_ok in Hl. destruct (c_lk c); try tauto; try contradiction. }
+    constructor; simpl; [auto| | | |auto].
     + unfold lock_ok in *. unfold set_thr; simpl. destruct (c_lk c); simpl; try congruence; lia.
+    + quiet Hq.
     + intros j th H. unfold set_thr in H. upd_cases H.
       * exact I.
       * apply Ht with (j := j); auto.
@@ -198,9 +214,9 @@ Proof.
     destruct (reader_inside c i _ Hl Hi eq_refl) as [n [Lk [CW CR]]].
     pose proof (cnt_upd inW _ _ _ (RSeen, r) Hi) as CW'. pose proof (cnt_upd inR _ _ _ (RSeen, r) Hi) as CR'.
     simpl in CW', CR'.
-    constructor; simpl; auto.
+    constructor; simpl; [auto| | | | ].
     + unfold lock_ok, set_thr; simpl. rewrite Lk. lia.
-    + unfold set_thr. intros _. apply Hq; auto.
+    + quiet Hq.
     + intros j th H. unfold set_thr in H. upd_cases H.
       * exact I.
       * apply Ht with (j := j); auto.
@@ -213,9 +229,9 @@ Proof.
     destruct (reader_inside c i _ Hl Hi eq_refl) as [n [Lk [CW CR]]].
     pose proof (cnt_upd inW _ _ _ (Idle, r) Hi) as CW'. pose proof (cnt_upd inR _ _ _ (Idle, r) Hi) as CR'.
     simpl in CW', CR'.
-    constructor; simpl; auto.
+    constructor; simpl; [auto| | | |auto].
     + unfold lock_ok, set_thr; simpl. rewrite Lk. destruct n; simpl; lia.
-    + unfold set_thr. intros _. apply Hq; auto.
+    + quiet Hq.
     + intros j th H. unfold set_thr in H. upd_cases H.
       * exact I.
       * apply Ht with (j := j); auto.
@@ -240,13 +256,13 @@ Lemma exec_apply_ops l : forall t,
   valid t -> (1 <= t_size t)%Z -> length (t_local t) = KB_ID_LEN ->
   exec t l = Some (apply_ops t l).
 Proof.
-  assert (R : forall l t, valid t -> (1 <= t_size t)%Z -> length (t_local t) = KB_ID_LEN ->
-            fst (run t l) = apply_ops t l).
-  { induction l as [|o r IH]; intros t V Hs Hl; [reflexivity|].
+  assert (R : forall l0 t, valid t -> (1 <= t_size t)%Z -> length (t_local t) = KB_ID_LEN ->
+            fst (run t l0) = apply_ops t l0).
+  { induction l0 as [|o r IH]; intros t V Hs Hl; [reflexivity|].
     destruct (step_valid t o V Hs Hl) as [V' [Hd [Hs' Hl']]].
     simpl. destruct (step t o) as [t' res] eqn:E; simpl in *. rewrite Hd.
     specialize (IH t' V' ltac:(lia) ltac:(congruence)).
-    destruct (run t' r) as [t'' rs]; simpl in *. unfold apply_ops in *. simpl. rewrite E. simpl. auto. }
+    destruct (run t' r) as [t'' rs]; simpl in *. exact IH. }
   intros t V Hs Hl. destruct (run_valid l t V Hs Hl) as [_ [Hd _]].
   specialize (R l t V Hs Hl). unfold exec. destruct (run t l) as [t' rs]; simpl in *.
   rewrite Hd. congruence.
@@ -285,9 +301,7 @@ Proof.
       - rewrite (Hq eq_refl) in Hsh. congruence.
       - (* somebody is writing and the table is consistent: the writer's own knowledge *)
         assert (exists j th, nth_error (c_thr c) j = Some th /\ inW (fst th) = true) as [j [th [Hj W]]].
-        { unfold cnt in C. destruct (filter _ (c_thr c)) as [|th f] eqn:F; [discriminate|].
-          assert (Hin : In th (filter (fun th => inW (fst th)) (c_thr c))) by (rewrite F; left; auto).
-          apply filter_In in Hin. destruct Hin as [Hin W]. apply In_nth_error in Hin. destruct Hin as [j Hj]. eauto. }
+        { apply cnt_pos. lia. }
         pose proof (Ht j th Hj) as Hok. unfold th_ok in Hok. destruct (fst th); simpl in W; try discriminate.
         + congruence.
         + destruct Hok; congruence.
@@ -297,4 +311,21 @@ Proof.
   - intros t o Hin. destruct (Ho t o Hin) as [l ->]. destruct (A l) as [E [V S]].
     split; [eauto|]. split; [apply valid_table_ok; auto|].
     intros target count _ Hc Hw. apply nearest_peers_ok; auto; lia.
+Qed.
+
+(** The lock matters in this model: when taking the lock does not wait ([disc = false]), a
+    NearestPeers call can read a table an Update is in the middle of rewriting. *)
+Lemma undisciplined_reads_torn size local id :
+  exists c, creach false (init_conf (new_table size local) [[OUpdate id 1%N]; [ONearest id 1%Z]]) c /\
+            c_bad c = true.
+Proof.
+  set (t0 := new_table size local).
+  eexists. split.
+  - eapply cr_step. eapply cr_step. eapply cr_step. eapply cr_step. eapply cr_step. apply cr_refl.
+    + eapply (s_wacq false _ 0); simpl; try reflexivity; try discriminate.
+    + eapply (s_wload false _ 0); simpl; reflexivity.
+    + eapply (s_wbegin false _ 0); simpl; reflexivity.
+    + eapply (s_racq false _ 1); simpl; try reflexivity; try discriminate.
+    + eapply (s_rload_torn false _ 1); simpl; reflexivity.
+  - reflexivity.
 Qed.
